@@ -46,7 +46,7 @@ func (c18) Thresholds(tier string) map[string]int64 {
 		"goroutines":                300,
 		"runners":                   500,
 		"steps":                     5000,
-		"traces-compared-with-sequential-reference": 500,
+		"traces-compared-with-sequential-reference": 350,
 		"cold-cache-concurrent-first-parses":        100,
 		"G=2":                                       2,
 		"G=8":                                       2,
@@ -109,7 +109,9 @@ func (p c18) Run(c *core.Ctx) {
 			// built-ins, visit counts, conversions, commands and functions
 			prog.Nodes[0].Body = append(c18Prelude(), prog.Nodes[0].Body...)
 			scripts := hast.Render(prog, hast.L0())
-			seed := []string{"a", "k3", "zz9", "0", "seed", "x1y2"}[r.Intn(6)]
+			// one runner in four is created without a seed (its trace cannot be compared, its creation and
+			// stepping still run under the race detector)
+			seed := []string{"a", "k3", "zz9", "0", "seed", "x1y2", "", ""}[r.Intn(8)]
 			jobs[g] = append(jobs[g], &job{item: c09Item{Idx: id, Scripts: scripts, Seed: seed, ChoiceSeed: r.U64()}})
 			id++
 		}
@@ -212,6 +214,10 @@ func (p c18) Run(c *core.Ctx) {
 	}
 	for g, js := range jobs {
 		for _, j := range js {
+			if j.item.Seed == "" {
+				c.Feature("runners-created-without-a-seed")
+				continue
+			}
 			want, ok := ref[strconv.Itoa(j.item.Idx)]
 			if !ok {
 				c.Inconclusive("reference process did not report a runner")
